@@ -2,6 +2,7 @@
 
 from __future__ import annotations
 
+import heapq
 import json
 from collections.abc import Iterable, Iterator, Mapping
 from dataclasses import dataclass, field, replace
@@ -686,25 +687,36 @@ class Hugr(Mapping[Node, NodeData], Generic[OpVarCov]):
 
     def _to_serial(self) -> SerialHugr:
         """Serialize the HUGR."""
-        # Live nodes in index order, the root first and no node before its parent:
-        # indices of deleted nodes are reused, so a child may have a lower index
-        # than its parent.
+        # The document encodes the hierarchy by position: a parent must be listed
+        # before its children and siblings in their child order. Indices of
+        # deleted nodes are reused, so index order alone does not guarantee
+        # either. Emit the nodes in index order wherever those two constraints
+        # allow it (always, if no index was ever reused).
         order: list[NodeIdx] = []
-        new_idx: dict[NodeIdx, NodeIdx] = {}
-
-        def place(idx: NodeIdx) -> None:
-            if idx in new_idx:
-                return
-            parent = self[Node(idx)].parent
-            if parent is not None:
-                place(parent.idx)
-            new_idx[idx] = len(order)
-            order.append(idx)
-
-        place(self.root.idx)
+        blockers: dict[NodeIdx, int] = {}
+        unblocks: dict[NodeIdx, list[NodeIdx]] = {}
         for idx, data in enumerate(self._nodes):
-            if data is not None:
-                place(idx)
+            if data is None:
+                continue
+            blockers.setdefault(idx, 0)
+            previous = idx
+            for child in data.children:
+                # a child waits for its parent and for its preceding sibling
+                blockers[child.idx] = 1 if previous == idx else 2
+                unblocks.setdefault(idx, []).append(child.idx)
+                if previous != idx:
+                    unblocks.setdefault(previous, []).append(child.idx)
+                previous = child.idx
+        ready = [idx for idx, count in blockers.items() if count == 0]
+        heapq.heapify(ready)
+        while ready:
+            idx = heapq.heappop(ready)
+            order.append(idx)
+            for nxt in unblocks.get(idx, []):
+                blockers[nxt] -= 1
+                if blockers[nxt] == 0:
+                    heapq.heappush(ready, nxt)
+        new_idx: dict[NodeIdx, NodeIdx] = {idx: i for i, idx in enumerate(order)}
 
         def _serialize_node(idx: NodeIdx) -> SerialOp:
             data = self[Node(idx)]
